@@ -34,7 +34,9 @@ type LayerClassSlice []bool
 // Contains returns true if the given layer type should be considered part
 // of this layer class.
 func (s LayerClassSlice) Contains(t LayerType) bool {
-	return int(t) < len(s) && s[t]
+	// Negative layer types are legal (see RegisterLayerType) but never part of
+	// a LayerClassSlice.
+	return 0 <= int(t) && int(t) < len(s) && s[t]
 }
 
 // LayerTypes returns all layer types in this LayerClassSlice.
@@ -97,9 +99,9 @@ func NewLayerClassMap(types []LayerType) LayerClassMap {
 // it creates based on which types are passed in.
 func NewLayerClass(types []LayerType) LayerClass {
 	for _, typ := range types {
-		if typ > maxLayerType {
-			// NewLayerClassSlice could create a very large object, so instead create
-			// a map.
+		if typ > maxLayerType || typ < 0 {
+			// NewLayerClassSlice could create a very large object (or cannot
+			// hold a negative layer type at all), so instead create a map.
 			return NewLayerClassMap(types)
 		}
 	}
